@@ -126,7 +126,8 @@ def run(ctx, ck):
 
     table = float_attr_table(ctx)
     ck.info('float_kind_attributes', sorted('%s.%s' % x for x in table)[:40])
-    writers = [f for f in m.all_funcs() if 'as_mininec' in f.name]
+    from ..rules import writer_functions
+    writers = writer_functions(ctx, ('as_mininec',))
     ck.floor('report writer functions', len(writers), 25)
     n_int = n_flt = 0
     lowprec = {}
